@@ -188,6 +188,8 @@ func nonTrivial(sci interface{}, res *simrt.Result) (bool, uint64) {
 
 func TestSim(t *testing.T) {
 	harn.Main(t, &harn.Spec{
+		// an implementation may synchronise per datagram (a yield point each): allow many steps
+		Knobs: func(r *harn.Rng, sc interface{}, cfg *simrt.Config) { cfg.MaxSteps = 12000000 },
 		ID: "C16", Gen: gen, New: func() interface{} { return &scenario{} }, Run: run, Sequential: true,
 		NonTrivial: func(sci interface{}, res *simrt.Result) (bool, uint64) {
 			sc := sci.(*scenario)
